@@ -102,6 +102,15 @@ def step (st : St) (j : Json) : St × List String :=
   | "vaultpath" =>
     let kid := unhex (jStr j "kid")
     (st, [s!"vaultpath acc={bit (validB kid)} {hex (vaultKeyPath (unhex (jStr j "prefix")) Nuts.Facts.C03.vaultKeyPathName kid)}"])
+  | "vaultuse" =>
+    -- wrapper + vaultKVStorage: Save (write), Exists (read), Get (read), Delete — all on privateKeyPath(prefix, name)
+    let kid := unhex (jStr j "kid")
+    match validB kid with
+    | some true =>
+      let p := hex (vaultKeyPath (unhex (jStr j "prefix")) Nuts.Facts.C03.vaultKeyPathName kid)
+      (st, [s!"vaultuse res=ok,ok/true,ok/true,ok paths=[{p},{p},{p},{p}] left=0"])
+    | some false => (st, ["vaultuse res=invalid-key-id,invalid-key-id/false,invalid-key-id/false,invalid-key-id paths=[] left=0"])
+    | none => (st, ["vaultuse model-not-applicable"])
   -- key store state machine
   | "reset" => ({ store := {} }, ["reset"])
   | "new" =>
